@@ -99,6 +99,11 @@ def cur (s : St) : Tok := s.toks.headD default
 /-- CONSUME_TOKEN -/
 def consume (s : St) : St := { s with toks := s.toks.tail, scanned := false }
 
+/-- `if (scanner->skip_depth > 0) scanner->skip_depth += 1;` -/
+def inc (s : St) : St := if s.skip > 0 then { s with skip := s.skip + 1 } else s
+/-- `if (scanner->skip_depth > 0) scanner->skip_depth -= 1;` -/
+def dec (s : St) : St := if s.skip > 0 then { s with skip := s.skip - 1 } else s
+
 def isValueStart : TokType → Bool
   | .olist | .otable | .tvalue | .qvalue | .value => true
   | _ => false
@@ -175,22 +180,22 @@ def Content.prune (c : Content) : Content := { c with loops := c.loops.filter (f
     Returns the result, the state and the (name, value) stored by cif_container_set_value, if any. -/
 def parseItem (p : Prog) (fuel : Nat) (cont : Bool) (name : Option Str) (s : St) : Int × St × Option (Str × V) :=
   let (ty, s) := nextToken s
-  let s := if s.skip > 0 then { s with skip := s.skip + 1 } else s
-  if !isValueStart ty then (MALFORMED, s, none) else
-  let (r, v, s) := parseValue fuel s
+  let s := inc s
   let (r, s, stored) :=
-    if r = OK then
-      match name with
-      | none => (r, s, none)
-      | some nm =>
-        let (h, s) := call p s (.item nm v)
-        if h = CONTINUE then (OK, s, if cont then some (nm, v) else none)
-        else if h = SKIP_CURRENT then (OK, s, none)
-        else if h = SKIP_SIBLINGS then (OK, { s with skip := 2 }, none)
-        else (h, s, none)
-    else (r, s, none)
-  let s := if s.skip > 0 then { s with skip := s.skip - 1 } else s
-  (r, s, stored)
+    if !isValueStart ty then (MALFORMED, s, none)        -- CIF_MISSING_VALUE
+    else
+      let (r, v, s) := parseValue fuel s
+      if r = OK then
+        match name with
+        | none => (r, s, none)
+        | some nm =>
+          let (h, s) := call p s (.item nm v)
+          if h = CONTINUE then (OK, s, if cont then some (nm, v) else none)
+          else if h = SKIP_CURRENT then (OK, s, none)
+          else if h = SKIP_SIBLINGS then (OK, { s with skip := 2 }, none)
+          else (h, s, none)
+      else (r, s, none)
+  (r, dec s, stored)
 
 -- ---- loops --------------------------------------------------------------------------------------------------
 
@@ -213,91 +218,107 @@ structure PkSt where
   stored : List (List V)        -- packets recorded by cif_loop_add_packet
 deriving Inhabited
 
+/-- first value of a new packet: the packet_start handler, unless the packet is being skipped -/
+def pktStartStep (p : Prog) (s : St) : Int × St :=
+  if s.skip > 0 then (OK, { s with skip := s.skip + 1 })
+  else
+    let (h, s) := call p s .pktStart
+    if h = SKIP_CURRENT then (OK, { s with skip := 1 })
+    else if h = SKIP_SIBLINGS then (OK, { s with skip := 2 })
+    else if h = CONTINUE then (OK, s)
+    else (h, s)                                          -- CIF_TRAVERSE_END or an error code: stop parsing
+
+/-- after parse_value (result `r`) inside a loop: the item handler, unless the item is being skipped -/
+def itemStep (p : Prog) (nm : Str) (r : Int) (v : V) (s : St) : Int × St :=
+  if r = OK ∧ s.skip ≤ 0 then
+    let (h, s) := call p s (.item nm v)
+    if h = SKIP_CURRENT then (OK, s)
+    else if h = SKIP_SIBLINGS then (OK, { s with skip := 1 })
+    else (h, s)
+  else (r, s)
+
+/-- last value of a packet: the packet_end handler, unless the packet is being skipped; the Bool says whether the packet
+    is recorded (cif_loop_add_packet, when there is a loop) -/
+def pktEndStep (p : Prog) (items : List (Str × V)) (s : St) : Int × St × Bool :=
+  if s.skip > 0 then (OK, { s with skip := s.skip - 1 }, false)
+  else
+    let (h, s) := call p s (.pktEnd items)
+    if h = CONTINUE then (OK, s, true)
+    else if h = SKIP_CURRENT then (OK, s, false)
+    else if h = SKIP_SIBLINGS then (OK, { s with skip := 1 }, false)
+    else (h, s, false)
+
 /-- the `while` of parse_loop_packets.  `loopH` = `loop != NULL`; `names` = the header's names (column_count of them). -/
 def packetsLoop (p : Prog) (loopH : Bool) (names : List Str) : Nat → St → PkSt → Int × St × PkSt
   | 0, s, k => (NOFUEL, s, k)
   | fuel + 1, s, k =>
-    let (ty, s) := nextToken s
-    if isValueStart ty then
-      -- first value of a new packet
-      let (r0, s) :=
-        if k.col = 0 then
-          if s.skip > 0 then (OK, { s with skip := s.skip + 1 })
-          else
-            let (h, s) := call p s .pktStart
-            if h = SKIP_CURRENT then (OK, { s with skip := 1 })
-            else if h = SKIP_SIBLINGS then (OK, { s with skip := 2 })
-            else if h = CONTINUE then (OK, s)
-            else (h, s)
-        else (OK, s)
-      if r0 ≠ OK then (r0, s, k) else
-      let nm := names.getD k.col []
-      let (r, v, s) := parseValue fuel s
-      let row := k.row ++ [v]
-      let (r, s) :=
-        if r = OK ∧ s.skip ≤ 0 then
-          let (h, s) := call p s (.item nm v)
-          if h = SKIP_CURRENT then (OK, s)
-          else if h = SKIP_SIBLINGS then (OK, { s with skip := 1 })
-          else (h, s)
-        else (r, s)
+    if isValueStart (nextToken s).1 then
+      let s1 := if k.col = 0 then pktStartStep p (nextToken s).2 else (OK, (nextToken s).2)
+      if s1.1 ≠ OK then (s1.1, s1.2, k) else
+      let pv := parseValue fuel s1.2
+      let row := k.row ++ [pv.2.1]
+      let it := itemStep p (names.getD k.col []) pv.1 pv.2.1 pv.2.2
       let col := (k.col + 1) % names.length
-      if r ≠ OK then (r, s, { k with col := col, row := row })
+      if it.1 ≠ OK then (it.1, it.2, { k with col := col, row := row })
       else if col = 0 then
         -- that was the last value of the packet
-        if s.skip > 0 then
-          packetsLoop p loopH names fuel { s with skip := s.skip - 1 } { k with col := 0, row := [], havePk := true }
-        else
-          let (h, s) := call p s (.pktEnd (List.zip names row))
-          if h = CONTINUE then
-            packetsLoop p loopH names fuel s
-              { col := 0, row := [], havePk := true, stored := if loopH then k.stored ++ [row] else k.stored }
-          else if h = SKIP_CURRENT then
-            packetsLoop p loopH names fuel s { k with col := 0, row := [], havePk := true }
-          else if h = SKIP_SIBLINGS then
-            packetsLoop p loopH names fuel { s with skip := 1 } { k with col := 0, row := [], havePk := true }
-          else (h, s, { k with col := 0, row := row })
-      else packetsLoop p loopH names fuel s { k with col := col, row := row }
-    else if ty = .clist ∨ ty = .ctable then (MALFORMED, s, k)
-    else if k.col ≠ 0 then (MALFORMED, s, k)          -- CIF_PARTIAL_PACKET
-    else if !k.havePk then (MALFORMED, s, k)            -- CIF_EMPTY_LOOP
-    else (OK, s, k)
+        let pe := pktEndStep p (List.zip names row) it.2
+        if pe.1 ≠ OK then (pe.1, pe.2.1, { k with col := 0, row := row })
+        else packetsLoop p loopH names fuel pe.2.1
+          { col := 0, row := [], havePk := true, stored := if pe.2.2 && loopH then k.stored ++ [row] else k.stored }
+      else packetsLoop p loopH names fuel it.2 { k with col := col, row := row }
+    else if (nextToken s).1 = .clist ∨ (nextToken s).1 = .ctable then (MALFORMED, (nextToken s).2, k)
+    else if k.col ≠ 0 then (MALFORMED, (nextToken s).2, k)          -- CIF_PARTIAL_PACKET
+    else if !k.havePk then (MALFORMED, (nextToken s).2, k)          -- CIF_EMPTY_LOOP
+    else (OK, (nextToken s).2, k)
+
+/-- the loop_start handler, unless the loop is being skipped.  Returns (handler result, state, loop created?, parse the
+    body?) -/
+def loopStartStep (p : Prog) (cont : Bool) (names : List Str) (s : St) : Int × St × Bool × Bool :=
+  if s.skip ≤ 0 then
+    let (h, s) := call p s (.loopStart names)
+    if h = CONTINUE then (h, s, cont, true)
+    else if h = SKIP_CURRENT then (h, { s with skip := 1 }, false, true)
+    else if h = SKIP_SIBLINGS then (h, { s with skip := 2 }, false, true)
+    else if h = END then (h, s, false, false)           -- goto loop_body_end
+    else (h, s, false, true)                            -- default: do nothing — the packets are parsed all the same
+  else (OK, s, false, true)
+
+/-- the code after label `loop_end` of parse_loop -/
+def loopEndStep (p : Prog) (handle : Option (List Str)) (r : Int) (s : St) : Int × St :=
+  if s.skip > 0 then (r, { s with skip := s.skip - 1 })
+  else if r = OK then
+    let (h, s) := call p s (.loopEnd handle)
+    if h = SKIP_CURRENT then (OK, s)
+    else if h = SKIP_SIBLINGS then (OK, { s with skip := 1 })
+    else (h, s)
+  else (r, s)
 
 /-- parse_loop (entered after the `loop_` keyword was consumed).  Returns the loop created in the container, with the
     packets added to it, if any. -/
 def parseLoop (p : Prog) (fuel : Nat) (cont : Bool) (s : St) : Int × St × Option Loop :=
-  let s := if s.skip > 0 then { s with skip := s.skip + 1 } else s
-  let (r, names, s) := headerLoop fuel s []
-  if r ≠ OK then (r, s, none) else
-  if names.isEmpty then (MALFORMED, s, none) else     -- CIF_NULL_LOOP
-  -- the loop_start handler, unless this loop is being skipped
-  let (r1, s, created, toBody) :=
-    if s.skip ≤ 0 then
-      let (h, s) := call p s (.loopStart names)
-      if h = CONTINUE then (h, s, cont, true)
-      else if h = SKIP_CURRENT then (h, { s with skip := 1 }, false, true)
-      else if h = SKIP_SIBLINGS then (h, { s with skip := 2 }, false, true)
-      else if h = END then (h, s, false, false)       -- goto loop_body_end
-      else (h, s, false, true)                        -- default: do nothing — the packets are parsed all the same
-    else (OK, s, false, true)
-  let (r, s, pk) :=
-    if toBody then packetsLoop p created names fuel s { col := 0, row := [], havePk := false, stored := [] }
-    else (r1, s, { col := 0, row := [], havePk := false, stored := [] })
-  let loop : Option Loop := if created then some { category := none, names := names, packets := pk.stored } else none
-  -- loop_end:
-  if s.skip > 0 then (r, { s with skip := s.skip - 1 }, loop)
-  else if r = OK then
-    let (h, s) := call p s (.loopEnd (if created then some names else none))
-    if h = SKIP_CURRENT then (OK, s, loop)
-    else if h = SKIP_SIBLINGS then (OK, { s with skip := 1 }, loop)
-    else (h, s, loop)
-  else (r, s, loop)
+  let hd := headerLoop fuel (inc s) []
+  let names := hd.2.1
+  if hd.1 ≠ OK then
+    let e := loopEndStep p none hd.1 hd.2.2; (e.1, e.2, none)
+  else if names.isEmpty then
+    let e := loopEndStep p none MALFORMED hd.2.2; (e.1, e.2, none)      -- CIF_NULL_LOOP
+  else
+    let ls := loopStartStep p cont names hd.2.2
+    let created := ls.2.2.1
+    if ls.2.2.2 then
+      let pk := packetsLoop p created names fuel ls.2.1 { col := 0, row := [], havePk := false, stored := [] }
+      let e := loopEndStep p (if created then some names else none) pk.1 pk.2.1
+      (e.1, e.2, if created then some { category := none, names := names, packets := pk.2.2.stored } else none)
+    else
+      let e := loopEndStep p (if created then some names else none) ls.1 ls.2.1
+      (e.1, e.2, if created then some { category := none, names := names, packets := [] } else none)
 
 -- ---- containers -----------------------------------------------------------------------------------------------
 
 /-- the tail of parse_container after label `container_end` -/
 def containerEnd (p : Prog) (cont isBlock : Bool) (code : Str) (r : Int) (s : St) (c : Content) : Int × St × Content :=
-  let s := if s.skip > 0 then { s with skip := s.skip - 1 } else s
+  let s := dec s
   if r = OK ∧ s.skip ≤ 0 then
     let c := if cont then c.prune else c
     let h := if cont then some code else none
@@ -307,24 +328,27 @@ def containerEnd (p : Prog) (cont isBlock : Bool) (code : Str) (r : Int) (s : St
     else (r, s, c)
   else (r, s, c)
 
+/-- the head of parse_container: the block/frame start handler, unless the container is being skipped -/
+def contStartStep (p : Prog) (cont isBlock : Bool) (code : Str) (s : St) : Int × St :=
+  if s.skip > 0 then (OK, inc s)
+  else
+    let h := if cont then some code else none
+    let (r, s) := call p s (if isBlock then .blockStart h else .frameStart h)
+    if r = CONTINUE then (OK, s)
+    else if r = SKIP_CURRENT then (OK, { s with skip := 1 })
+    else if r = SKIP_SIBLINGS then (OK, { s with skip := 2 })
+    else (r, s)
+
 mutual
   /-- parse_container.  `cont` = `container != NULL`; `code` = the code of the (possibly not created) container. -/
   def parseContainer (p : Prog) (maxFrameDepth : Int) : Nat → Bool → Bool → Str → St → Int × St × Content
     | 0, _, _, _, s => (NOFUEL, s, .empty)
     | fuel + 1, cont, isBlock, code, s =>
-      let (r, s) :=
-        if s.skip > 0 then (OK, { s with skip := s.skip + 1 })
-        else
-          let h := if cont then some code else none
-          let (r, s) := call p s (if isBlock then .blockStart h else .frameStart h)
-          if r = CONTINUE then (OK, s)
-          else if r = SKIP_CURRENT then (OK, { s with skip := 1 })
-          else if r = SKIP_SIBLINGS then (OK, { s with skip := 2 })
-          else (r, s)
-      if r ≠ OK then containerEnd p cont isBlock code r s .empty
+      let st := contStartStep p cont isBlock code s
+      if st.1 ≠ OK then containerEnd p cont isBlock code st.1 st.2 .empty
       else
-        let (r, s, c) := elemsLoop p maxFrameDepth fuel cont isBlock s .empty
-        containerEnd p cont isBlock code r s c
+        let el := elemsLoop p maxFrameDepth fuel cont isBlock st.2 .empty
+        containerEnd p cont isBlock code el.1 el.2.1 el.2.2
   /-- the `while` of parse_container; returns the `result` with which `container_end` is reached -/
   def elemsLoop (p : Prog) (maxFrameDepth : Int) : Nat → Bool → Bool → St → Content → Int × St × Content
     | 0, _, _, s, c => (NOFUEL, s, c)
@@ -393,7 +417,7 @@ def parseCif (p : Prog) (maxFrameDepth : Int) (cif : Bool) (fuel : Nat) (s : St)
     else (r, s)
   let (r, s, blocks) := if r = OK then blocksLoop p maxFrameDepth cif fuel s [] else (r, s, [])
   -- cif_end:
-  let s := if s.skip > 0 then { s with skip := s.skip - 1 } else s
+  let s := dec s
   let (r, s) := if r = OK then call p s (.cifEnd cif) else (r, s)
   (if r > OK then r else OK, s, blocks)
 
